@@ -127,7 +127,11 @@ func VerifC17Buffer() {
 	line1 := append(append([]byte{}, name...), []byte(" 1 1500000001")...)
 	line2 := append(append([]byte{}, name...), []byte(" 2 1500000002")...)
 	line3 := append(append([]byte{}, name...), []byte(" 3 1500000003")...)
+	mark := verifTraceMark()
 	r.Dispatch(line1)
+	if verifIsSymbolic() && !blocking {
+		verifAssert(verifCalledSince(mark, "op:plain-chan-send") == 0 && verifCalledSince(mark, "op:blocking-select") == 0, "structural/nonblocking-dispatch-has-no-blocking-channel-operation")
+	}
 	// same series -> same shard: exactly one shard holds it
 	verifAssert(len(r.in[0])+len(r.in[1]) == 1, "first-line-buffered")
 	shard := 0
